@@ -68,6 +68,13 @@ type Hub struct {
 	muxPairingUpdate   sync.Mutex
 	muxPairingDelivery sync.Mutex
 
+	// how often the user withdrew the trust for a SKI (unregister, cancel pairing) and the
+	// value of that number when the SKI got registered the last time. An outgoing connection
+	// attempt uses it to see that the trust was withdrawn while it was established
+	pairingWithdrawals  map[string]uint64
+	pairingRegisteredAt map[string]uint64
+	muxWithdrawals      sync.Mutex
+
 	muxCon        sync.Mutex
 	muxConAttempt sync.Mutex
 	muxReg        sync.Mutex
@@ -87,6 +94,8 @@ func NewHub(hubReader api.HubReaderInterface,
 		remoteServices:           make(map[string]*api.ServiceDetails),
 		knownMdnsEntries:         make([]*api.MdnsEntry, 0),
 		pairingUpdateDelivered:   make(map[string]uint64),
+		pairingWithdrawals:       make(map[string]uint64),
+		pairingRegisteredAt:      make(map[string]uint64),
 		hubReader:                hubReader,
 		port:                     port,
 		certifciate:              certificate,
